@@ -6,6 +6,8 @@
 //	                     connections are real *grpc.ClientConn over bufconn to a real gRPC server)
 //	pool <cfg> <op>...   a history on a real grpcadapter.AdaptedClientPool used directly (New / Get / controller Close)
 //
+//	conc <seed> <goroutines> <ops>   goroutines use one real AdaptedClientPool concurrently (see execConc)
+//
 // cfg = p<0|1>r<0|1>: p1 = reflection polling enabled (1s interval), p0 = WithDisabledReflectionPolling;
 // r1 = the target server serves the reflection API, r0 = it does not (every resolution fails).
 //
@@ -31,6 +33,9 @@ import (
 	"fmt"
 	"math/rand"
 	"net"
+	"os"
+	"os/exec"
+	"path/filepath"
 	"runtime"
 	"sort"
 	"strconv"
@@ -198,7 +203,7 @@ type env struct {
 	calls   []*call
 	ctrls   []*grpcadapter.AdaptedClientPoolController
 	ctrlCon []grpcadapter.ClientConn // the connection each issued controller owns (looked up right after New)
-	live    int // successful Adds minus successful Removes, from the return values
+	live    int                      // successful Adds minus successful Removes, from the return values
 }
 
 var (
@@ -451,8 +456,57 @@ func guarded(f func() string) string {
 
 var warm sync.Once
 
+// contaminated: a case left goroutines behind (or hung). Goroutines leaked by one case keep spawning others
+// (pollers re-poll), which would be charged to later, innocent cases; from then on every case runs in a
+// fresh child process so that each output stays a function of its input line alone.
+var contaminated atomic.Bool
+
+func execInChild(input string) (string, bool) {
+	exe, err := os.Executable()
+	if err != nil {
+		return "", false
+	}
+	dir, err := os.MkdirTemp("", "c16child")
+	if err != nil {
+		return "", false
+	}
+	defer os.RemoveAll(dir)
+	rp := filepath.Join(dir, "replay.txt")
+	if os.WriteFile(rp, []byte(input+"\n"), 0o644) != nil {
+		return "", false
+	}
+	ctx, cancel := context.WithTimeout(context.Background(), 3*time.Minute)
+	defer cancel()
+	cmd := exec.CommandContext(ctx, exe, "-area", "c16", "-replay", rp, "-out", filepath.Join(dir, "out"))
+	cmd.Env = append(os.Environ(), "C16_CHILD=1")
+	if atomic.LoadInt32(&slowHits) >= 4 {
+		cmd.Env = append(cmd.Env, "C16_IMPATIENT=1")
+	}
+	if cmd.Run() != nil {
+		return "", false
+	}
+	b, err := os.ReadFile(filepath.Join(dir, "out", "cases.txt"))
+	if err != nil {
+		return "", false
+	}
+	line := strings.TrimRight(string(b), "\n")
+	i := strings.Index(line, " => ")
+	if i < 0 || strings.Contains(line, "\n") {
+		return "", false
+	}
+	return line[i+4:], true
+}
+
 func (a Area) Exec(input string) string {
+	if os.Getenv("C16_CHILD") == "" && contaminated.Load() {
+		if out, ok := execInChild(input); ok {
+			return out
+		}
+	}
 	warm.Do(func() { // start lazily created process-wide goroutines before any baseline is taken
+		if os.Getenv("C16_IMPATIENT") != "" {
+			atomic.StoreInt32(&slowHits, 4)
+		}
 		execLine("rr p0r1 A0o G0 S0 R0")
 		execLine("pool p0r0 N0o G0 S0 K0")
 		time.Sleep(20 * time.Millisecond)
@@ -460,8 +514,149 @@ func (a Area) Exec(input string) string {
 	return execLine(input)
 }
 
+// execConc: "conc <seed> <goroutines> <ops>" — goroutines use ONE real pool concurrently (New with succeeding and
+// failing constructors, Get, Close of their own controllers, over two names). Whatever the schedule, the counts
+// reported must all be zero: nil = lookups that were present-but-missing, panic = first Close of an own controller
+// panicked, incons = after quiescence a name held by some goroutine is not usable / a name held by nobody is,
+// stuck = after closing everything a name cannot be dialed again, leak = goroutines left.
+func execConc(f []string) string {
+	if len(f) != 4 {
+		return "BADOP"
+	}
+	seed, e1 := strconv.ParseInt(f[1], 10, 64)
+	ng, e2 := strconv.Atoi(f[2])
+	nops, e3 := strconv.Atoi(f[3])
+	if e1 != nil || e2 != nil || e3 != nil || ng < 1 || ng > 64 || nops < 1 {
+		return "BADOP"
+	}
+	base := goroutineIDs()
+	e := newEnv(false)
+	var nilGets, panics int32
+	lookup := func(name string) (grpcadapter.ClientConn, bool) {
+		c, ok := e.pool.Get(name)
+		if ok && isNilConn(c) {
+			atomic.AddInt32(&nilGets, 1)
+			return nil, false
+		}
+		return c, ok
+	}
+	e.pool = grpcadapter.NewAdaptedClientPool(grpcadapter.AdaptedClientPoolOpts{
+		NewClientFunc: func(target string, _ ...grpc.DialOption) (*grpc.ClientConn, error) {
+			mode, name, _ := strings.Cut(target, ":")
+			lookup(name)
+			runtime.Gosched()
+			if mode == "fail" {
+				return nil, errInjected
+			}
+			return grpc.NewClient("passthrough:///c16-bufnet",
+				grpc.WithContextDialer(func(ctx context.Context, _ string) (net.Conn, error) { return e.lis.DialContext(ctx) }),
+				grpc.WithTransportCredentials(insecure.NewCredentials()))
+		},
+	})
+	cnames := names[:2]
+	held := make([]map[string]*grpcadapter.AdaptedClientPoolController, ng)
+	var wg sync.WaitGroup
+	for gi := 0; gi < ng; gi++ {
+		held[gi] = map[string]*grpcadapter.AdaptedClientPoolController{}
+		wg.Add(1)
+		go func(gi int) {
+			defer wg.Done()
+			r := rand.New(rand.NewSource(seed*1000 + int64(gi)))
+			mine := held[gi]
+			for i := 0; i < nops; i++ {
+				name := cnames[r.Intn(len(cnames))]
+				switch x := r.Intn(10); {
+				case x < 4:
+					mode := "ok"
+					if r.Intn(3) == 0 {
+						mode = "fail"
+					}
+					if _, have := mine[name]; have {
+						continue
+					}
+					if c, err := e.pool.New(name, mode+":"+name); err == nil {
+						mine[name] = c
+					}
+				case x < 8:
+					lookup(name)
+				default:
+					if c, have := mine[name]; have {
+						func() {
+							defer func() {
+								if recover() != nil {
+									atomic.AddInt32(&panics, 1)
+								}
+							}()
+							c.Close()
+						}()
+						delete(mine, name)
+					}
+				}
+				if r.Intn(4) == 0 {
+					runtime.Gosched()
+				}
+			}
+		}(gi)
+	}
+	done := make(chan struct{})
+	go func() { wg.Wait(); close(done) }()
+	select {
+	case <-done:
+	case <-time.After(opTimeout):
+		contaminated.Store(true)
+		return "hang aborted"
+	}
+	incons, stuck := 0, 0
+	for _, name := range cnames {
+		holders := 0
+		for gi := range held {
+			if _, ok := held[gi][name]; ok {
+				holders++
+			}
+		}
+		_, ok := lookup(name)
+		if holders > 1 || (holders == 1) != ok {
+			incons++
+		}
+	}
+	for gi := range held {
+		for _, c := range held[gi] {
+			func() {
+				defer func() {
+					if recover() != nil {
+						atomic.AddInt32(&panics, 1)
+					}
+				}()
+				c.Close()
+			}()
+		}
+	}
+	for _, name := range cnames {
+		if _, ok := lookup(name); ok {
+			incons++
+		}
+		c, err := e.pool.New(name, "ok:"+name)
+		if err != nil {
+			stuck++
+			continue
+		}
+		c.Close()
+	}
+	e.srv.Stop()
+	_ = e.lis.Close()
+	var left []gor
+	waitFor(leakTimeout, func() bool { left = leaked(base); return len(left) == 0 })
+	if len(left) > 0 {
+		contaminated.Store(true)
+	}
+	return fmt.Sprintf("nil=%d panic=%d incons=%d stuck=%d leak=%d", nilGets, panics, incons, stuck, len(left))
+}
+
 func execLine(input string) string {
 	f := strings.Fields(input)
+	if len(f) > 0 && f[0] == "conc" {
+		return execConc(f)
+	}
 	if len(f) < 2 || (f[0] != "rr" && f[0] != "pool") || len(f[1]) != 4 {
 		return "BADOP"
 	}
@@ -523,6 +718,7 @@ func execLine(input string) string {
 		}
 	}
 	if hung {
+		contaminated.Store(true)
 		// the real code is stuck inside an operation: nothing further can be observed safely
 		go e.srv.Stop()
 		return strings.Join(append(out, "aborted"), " ")
@@ -569,6 +765,9 @@ func execLine(input string) string {
 	_ = e.lis.Close()
 	var left []gor
 	waitFor(leakTimeout, func() bool { left = leaked(base); return len(left) == 0 })
+	if len(left) > 0 || tearOK != "ok" {
+		contaminated.Store(true)
+	}
 	if len(left) > 0 {
 		statMu.Lock()
 		if len(statLeak) < 3 {
@@ -632,6 +831,15 @@ func (Area) Gen(r *rand.Rand, tier string, emit func(string)) {
 	rec("rr", "p0r1", rrAlpha, nil)
 	rec("pool", "p0r0", plAlpha, nil)
 
+	// 2b. concurrent use of one real pool (all counts must be zero whatever the schedule)
+	nconc := 40
+	if tier == "thorough" {
+		nconc = 400
+	}
+	for k := 0; k < nconc; k++ {
+		emit(fmt.Sprintf("conc %d %d %d", r.Intn(1_000_000), 2+r.Intn(7), 20+r.Intn(200)))
+	}
+
 	// 3. seeded random histories, biased towards re-adding after failures/removals with calls in flight
 	n, maxOps, nNames := 250, 12, 3
 	if tier == "thorough" {
@@ -644,6 +852,7 @@ func (Area) Gen(r *rand.Rand, tier string, emit func(string)) {
 		var ops []string
 		present := map[int]bool{}
 		issued := 0
+		var looked []int
 		for j := 0; j < l; j++ {
 			i := r.Intn(nNames)
 			x := r.Intn(100)
@@ -685,12 +894,25 @@ func (Area) Gen(r *rand.Rand, tier string, emit func(string)) {
 						present = map[int]bool{} // lose track on purpose: some double closes and stale New
 					}
 				}
-			case x < 68:
+			case x < 62:
+				if len(looked) > 0 && r.Intn(3) != 0 { // mostly names that were looked up before
+					i = looked[r.Intn(len(looked))]
+				}
 				ops = append(ops, fmt.Sprintf("G%d", i))
-			case x < 84:
+				looked = append(looked, i)
+			case x < 82:
+				if len(looked) > 0 && r.Intn(5) != 0 { // mostly on a kept connection (possibly of a removed target)
+					i = looked[r.Intn(len(looked))]
+				}
 				ops = append(ops, fmt.Sprintf("S%d", i))
+			case x < 90:
+				if len(looked) > 0 && r.Intn(5) != 0 {
+					i = looked[r.Intn(len(looked))]
+				}
+				ops = append(ops, fmt.Sprintf("C%d", i))
 			default:
 				ops = append(ops, fmt.Sprintf("G%d", i), fmt.Sprintf("C%d", i))
+				looked = append(looked, i)
 			}
 		}
 		if router {
